@@ -1055,6 +1055,18 @@ pub fn corpus_items(rng: &mut Rng, thorough: bool, n_cross: usize, n_mut: usize)
     for n in [1usize, 8, 64] {
         items.push(Item { cls: "junk", dialect: "ansi".into(), sql: deep_brackets(n) });
     }
+    // scripting blocks nested in one another (the fixtures only have flat scripts): every pair of block kinds, in every dialect
+    // (where the dialect has no such statement the text is junk, which is part of the property's input space as well)
+    let blocks: [(&str, &str); 6] = [("IF TRUE THEN", "END IF;"), ("LOOP", "END LOOP;"), ("REPEAT", "UNTIL TRUE END REPEAT;"), ("WHILE TRUE DO", "END WHILE;"),
+                                     ("BEGIN", "END;"), ("FOR r IN (SELECT 1) DO", "END FOR;")];
+    for d in DIALECTS {
+        for (oa, ca) in blocks {
+            for (ob, cb) in blocks {
+                items.push(Item { cls: "nested-blocks", dialect: d.to_string(), sql: format!("{oa}\n  {ob}\n    SELECT 1;\n  {cb}\n  SELECT 2;\n{ca}\n") });
+            }
+            items.push(Item { cls: "nested-blocks", dialect: d.to_string(), sql: format!("{oa}\n  {oa}\n    {oa}\n      SELECT 1;\n    {ca}\n  {ca}\n{ca}\nSELECT 3;\n") });
+        }
+    }
     for f in &files {
         items.push(Item { cls: "corpus", dialect: f.dialect.clone(), sql: f.text.clone() });
     }
